@@ -212,7 +212,9 @@ def lazy_scenarios():
         ('re-used row buffer', 'value', rows, lazy),
         ('re-used row buffer, inside a chain', 'value', rows, lambda: (glom.T, glom.Flatten(init='lazy'))),
         ('flatten(levels=2) over boxed re-used rows', 'levels2', boxed_rows, None),
-    ]
+    ] + [('flatten(spec=%s, levels=%d)' % (sname, n), 'specfn', None, (sp, n))
+         for sname, sp in (('path', 'data'), ('callable', lambda t: t['data'] + [t['data'][-1]]), ('T', glom.T['data']))
+         for n in (0, 1, 2, 3)]
 
 
 def grouped_scenarios():
@@ -253,6 +255,18 @@ def run_lazy(case):
         elif any(a is b for a, b in zip(got1, got2) if isinstance(a, (list, dict))):
             problems.append('%s: two evaluations handed out the same container' % name)
         return {'problems': problems}
+    if what == 'specfn':
+        # the function flatten(target, spec=s, levels=n): s is applied ONCE, to the target; n levels of the result are flattened
+        sp, n = mk
+        deep = lambda: {'data': [[[[1], [2]], [[3]]], [[[3]]]]}  # noqa: E731
+        try:
+            got = glom.flatten(deep(), spec=sp, levels=n)
+            want = glom.glom(deep(), sp) if n else deep()
+            for _ in range(n):
+                want = list(itertools.chain.from_iterable(want))
+        except Exception as e:
+            return {'problems': ['%s: raised %s' % (name, type(e).__name__)]}
+        return {'problems': [] if got == want else ['%s: %r, %d-fold chain.from_iterable of glom(target, spec) gives %r' % (name, got, n, want)]}
     try:
         if what == 'pulls':
             log = []
